@@ -46,7 +46,8 @@ func (i *iter) Next(ctx context.Context) (err error) {
 
 	if !i.moved {
 		i.moved = true
-		return nil
+		// the first element must be inside the interval as well
+		return i.checkBorder()
 	}
 
 	i.count++
